@@ -1,7 +1,7 @@
 //! Provides utility to convert ast-grep data types to lsp data types
 use ast_grep_config::RuleConfig;
 use ast_grep_config::Severity;
-use ast_grep_core::{language::Language, Doc, Node, NodeMatch, StrDoc};
+use ast_grep_core::{language::Language, Node, NodeMatch, StrDoc};
 
 use serde::{Deserialize, Serialize};
 use tower_lsp::lsp_types::*;
@@ -56,17 +56,23 @@ pub fn diagnostic_to_code_action(
   Some(action)
 }
 
-fn convert_node_to_range<D: Doc>(node_match: &Node<D>) -> Range {
-  let start = node_match.start_pos();
-  let end = node_match.end_pos();
+// LSP positions count UTF-16 code units, not characters
+fn utf16_column(source: &str, byte_offset: usize) -> u32 {
+  let line_start = source[..byte_offset].rfind('\n').map_or(0, |i| i + 1);
+  source[line_start..byte_offset].encode_utf16().count() as u32
+}
+
+fn convert_node_to_range<L: Language>(node_match: &Node<StrDoc<L>>) -> Range {
+  let source = node_match.root().get_text();
+  let range = node_match.range();
   Range {
     start: Position {
-      line: start.line() as u32,
-      character: start.column(node_match) as u32,
+      line: node_match.start_pos().line() as u32,
+      character: utf16_column(source, range.start),
     },
     end: Position {
-      line: end.line() as u32,
-      character: end.column(node_match) as u32,
+      line: node_match.end_pos().line() as u32,
+      character: utf16_column(source, range.end),
     },
   }
 }
